@@ -92,7 +92,26 @@ def node_table(run: Run):
     return out
 
 
+def _nested_in_alarm(lines, node_id) -> bool:
+    """the line is an opener inside an Alarm body or at least two levels deep in one (Alarm > Watch|Alarm|Block|... > line):
+    when the alarm re-arms, nested nodes are reset while items of their earlier invocations are still in the run log"""
+    stack = []
+    for i, l in enumerate(lines):
+        ind = len(l) - len(l.lstrip(" "))
+        while stack and stack[-1][0] >= ind:
+            stack.pop()
+        if f"L{i}" == node_id:
+            opener = l.strip().split(":")[0] in ("Watch", "Alarm", "Block", "Macro")
+            return any(nm == "Alarm" for _, nm in stack) and (opener or len(stack) >= 2)
+        stack.append((ind, l.strip().split(":")[0]))
+    return False
+
+
 def run_one(lines, schedule, x_from=4):
+    return _run_one(lines, schedule, x_from)
+
+
+def _run_one(lines, schedule, x_from=4):
     run = Run("\n".join(lines), observe=("runlog",))
     probs = []
     by_tick = collections.defaultdict(list)
@@ -108,15 +127,16 @@ def run_one(lines, schedule, x_from=4):
         ob = run.tick()
         if "tick_exception" in ob:
             probs.append(("C15:tick-raised", f"Engine.tick raised {ob['tick_exception']}"))
-        if run.flags()["started"]:
-            probs += runlog_problems(ob, node_table(run))
-        else:
-            probs += runlog_problems(ob)
+        new = runlog_problems(ob, node_table(run)) if run.flags()["started"] else runlog_problems(ob)
+        if isinstance(ob.get("runlog"), str) and _nested_in_alarm(lines, getattr(run, "last_runlog_failure_node", None)):
+            new = [((s_ + ":nested-in-Alarm") if s_.startswith("C15:runlog-raises:") else s_, w) for s_, w in new]
+        probs += new
         if isinstance(ob["runlog"], list):
             n_items = max(n_items, len(ob["runlog"]))
     for (tick, rl) in run.on_stop_runlogs:
         if isinstance(rl, str):
-            probs.append(("C15:runlog-raises:" + cause(rl.split(":", 1)[1]), f"producing the run log for the run-stopped message raised {rl} (tick {tick})"))
+            sfx = ":nested-in-Alarm" if _nested_in_alarm(lines, run.on_stop_failure_nodes.get(tick)) else ""
+            probs.append(("C15:runlog-raises:" + cause(rl.split(":", 1)[1]) + sfx, f"producing the run log for the run-stopped message raised {rl} (tick {tick})"))
     run.cleanup()
     return probs, n_items
 
